@@ -54,6 +54,7 @@ type Services struct {
 	modelMutex   sync.Mutex
 	reloadCount  int
 	reloadQueue  utils.QueueFacade
+	updateFailed bool
 	svcleader    *svcLeader
 	svchealthz   *svcHealthz
 	svcstatus    *svcStatusUpdater
@@ -262,11 +263,18 @@ func (s *Services) ReconcileIngress(ctx context.Context, changed *convtypes.Chan
 	s.updateCount++
 	s.log.Info("starting haproxy update", "id", s.updateCount)
 	timer := utils.NewTimer(s.metrics.ControllerProcTime)
+	if s.updateFailed {
+		// The model is committed even if the update fails, so files and the running instance
+		// might be out of sync and a partial update wouldn't fix them. A full sync rebuilds all
+		// the files and reloads haproxy.
+		changed.NeedFullSync = true
+	}
 	converters.NewConverter(timer, s.instance.Config(), changed, s.converterOpt).Sync()
 	if s.svcleader.isLeader() {
 		s.instance.AcmeUpdate()
 	}
 	err := s.instance.HAProxyUpdate(timer)
+	s.updateFailed = err != nil
 	s.svcstatusing.changed(ctx, changed)
 	updatelogger := s.log.WithValues("id", s.updateCount).WithValues(timer.AsValues("total")...)
 	if err != nil {
